@@ -6,7 +6,7 @@ map to the `...` wildcard (index nesting ignored); a Choice is a leaf; Static re
 Not decided: exactness of the returned sub-map (relies on C17 / C18).
 """
 from ..program import AnalysisError
-from ..rules import is_call, is_mcall, mentions
+from ..rules import Arms, is_call, is_mcall, mentions
 from ..terms import C, Evaluator, G, P, is_t, mk_elem, mk_proj, show, subterms
 
 CM = "core/generative/choice_map.py"
@@ -23,7 +23,7 @@ def run(chk, prog):
     shape = ("call", ("attr", ("call", ("attr", P("gen_fn"), "get_zero_trace"), (("star", P("args")),), ()), "get_choices"), (), ())
     sel = ("call", G(c.module.dotted + "._shape_selection"), (shape,), ())
     extras = ("call", ("attr", SELF, "filter"), (("un", "~", sel),), ())
-    got = {}
+    got = Arms()
     for conds, ret in r.returns:
         got["extras" if any(is_mcall(t, "static_is_empty") and not p for t, p in conds) else "none"] = ret
     chk.require(got.get("extras") == extras, "POLARITY", "ChoiceMap.invalid_subset/extras", "the part of the map OUTSIDE the model's shape", derived=show(got.get("extras"))[:200], expected="self.filter(~_shape_selection(gen_fn.get_zero_trace(*args).get_choices()))", where=where)
@@ -34,7 +34,7 @@ def run(chk, prog):
     ev2 = Evaluator(prog)
     rl = ev2.eval_fn(loop, m, env0={"loop": G("$loop")})
     INNER, SEL = P("inner"), P("selection")
-    arms = {}
+    arms = Arms()
     for conds, ret in rl.returns:
         for t, p in conds:
             if p and is_t(t, "isinst") and t[1] == INNER:
